@@ -1,7 +1,27 @@
-(* C02 — CometBFT's validator set always equals the chain's own bonded set and powers.
-   (The invariant theorems are added by proofs/Inv.v; see the end of this file.) *)
+(* C02 — CometBFT's validator set always equals the chain's own bonded set and powers. *)
 From stdpp Require Import gmap.
 Require Import Model.Base Model.Validate Model.State Model.Staking Model.Slashing Model.Poa Model.App.
+Require Import proofs.Inv proofs.InvIdx proofs.InvPres proofs.InvMsgs proofs.InvHistory.
+
+(* what makes x/staking's EndBlocker report the right set: in every reachable state each validator owns at most
+   one power-index entry, it is at the validator's token power, and jailed validators own none (this is the
+   statement that was false at the pinned commit; Legacy/StakingLegacy.v) *)
+Theorem C02_index_exact : forall g bs,
+  wf_genesis g ->
+  let s := stk (w_chain (run_world (init_world g) bs)) in
+  (forall p id, In (p, id) (pidx s) -> exists v, vals s !! id = Some v /\ v_jailed v = false /\ p = v_power v) /\
+  List.NoDup (map snd (pidx s)).
+Proof. intros g bs Hg s. destruct (reachable_CI g bs Hg) as [HS _]. split; [exact (si_sound _ HS)|exact (si_unique _ HS)]. Qed.
+
+(* distinct validators never share a consensus key, so an update's key identifies its validator *)
+Theorem C02_consensus_keys_distinct : forall g bs,
+  wf_genesis g -> cons_inj (stk (w_chain (run_world (init_world g) bs))).
+Proof. intros g bs Hg. destruct (reachable_CI g bs Hg) as [HS _]. exact (si_cons _ HS). Qed.
+
+(* every member of the set last reported to CometBFT is a bonded validator of the chain *)
+Theorem C02_last_set_bonded : forall g bs,
+  wf_genesis g -> last_bonded (stk (w_chain (run_world (init_world g) bs))).
+Proof. intros g bs Hg. destruct (reachable_CI g bs Hg) as [HS _]. exact (si_last _ HS). Qed.
 
 (* non-vacuity / genesis: a three-validator genesis under a cap of two bonds the two strongest, and the set
    CometBFT starts from is exactly the chain's last validator powers keyed by consensus key *)
